@@ -378,8 +378,10 @@ def run_property(pid, tier, seed, units, quiet=False):
     # ---- bounded stand-in (a unit is undecided) / search for a failing input (an obligation is refuted)
     input_findings = [k for k in known if k['property'] == pid and k.get('input')]
     standin = None
-    if undecided or violations:
-        standin = run_witness(pid, tier, seed, {k['input'] for k in known if k.get('input')})
+    explore = tier == 'thorough' and not (undecided or violations) and not os.environ.get('VERIF_EVIDENCE_DIR')
+    if undecided or violations or explore:
+        # the thorough tier always adds the bounded exploration, with a fixed internal seed (the deciding step stays the verifier)
+        standin = run_witness(pid, tier, (EXPLORE_SEED if explore else seed), {k['input'] for k in known if k.get('input')})
     # ---- evidence
     n_fn = sum(len(ur['fn_results']) for ur in results)
     n_ok = sum(1 for ur in results for v in ur['fn_results'].values() if v['success'])
@@ -419,6 +421,10 @@ def run_property(pid, tier, seed, units, quiet=False):
                 'label': 'bounded', 'never_counted_as_proved': True, 'stands_in_for_units': [n for n, _ in undecided],
                 'what': 'differential check of the public API against an independent oracle (python re on the common fragment) '
                         'and metamorphic relations, see vlib/witness.py', 'explored': (standin or {}).get('explored'),
+                'error': (standin or {}).get('error'), 'failures_for_this_property': len((standin or {}).get('failures', []))}),
+            'bounded_exploration': (None if not explore else {
+                'label': 'bounded', 'never_counted_as_proved': True, 'seed': EXPLORE_SEED,
+                'what': 'thorough tier only: differential exploration of the public API (vlib/witness.py) in addition to the proof', 'explored': (standin or {}).get('explored'),
                 'error': (standin or {}).get('error'), 'failures_for_this_property': len((standin or {}).get('failures', []))}),
             'witness_search': (None if not violations else {'explored': (standin or {}).get('explored'), 'error': (standin or {}).get('error'),
                                                              'failing_inputs_found': len((standin or {}).get('failures', []))}),
@@ -469,6 +475,20 @@ def run_property(pid, tier, seed, units, quiet=False):
                          'it is not derived from the refuted obligation) ---\n' + _w.replay_text(wfails[0]))
             tail = 'replayed=yes pattern=%s flags=%s input=%s' % (json.dumps(wfails[0]['pattern']), json.dumps(wfails[0]['flags']), json.dumps(wfails[0]['input']))
         print(f'VIOLATION property={pid} replay={path} obligation={fl.oid} verifier="{fl.message}" {tail}')
+        rc = 1
+    if explore and standin is not None and not standin.get('error') and wfails:
+        d = os.path.join(VERIF, 'replays', pid)
+        os.makedirs(d, exist_ok=True)
+        shown = set()
+        for f in wfails:
+            if f['what'] in shown or len(shown) >= 3:
+                continue
+            shown.add(f['what'])
+            path = os.path.join(d, 'bounded_exploration_%d.txt' % len(shown))
+            with open(path, 'w', encoding='utf-8') as fh:
+                fh.write('BOUNDED EXPLORATION (thorough tier; not a proof obligation)\n' + _w.replay_text(f))
+            print(f'VIOLATION property={pid} replay={path} obligation=bounded-exploration:{f["pid"]} pattern={json.dumps(f["pattern"])} '
+                  f'flags={json.dumps(f["flags"])} input={json.dumps(f["input"])} expected={json.dumps(f["expected"][:120])} actual={json.dumps(f["actual"][:120])}')
         rc = 1
     if undecided:
         if standin is None or standin.get('error'):
@@ -529,11 +549,14 @@ def selftest(pid, seed):
     return rows
 
 
+EXPLORE_SEED = 11
+
+
 def run_witness(pid, tier, seed, known_inputs):
     """bounded differential search through the public API; failures that bear on `pid`, minus the listed findings"""
     try:
         from . import witness
-        out = witness.search({pid}, os.environ.get('VERIF_REPO', '/repo'), tier if tier in witness.BOUNDS else 'quick', seed)
+        out = witness.cached_search(os.environ.get('VERIF_REPO', '/repo'), tier if tier in witness.BOUNDS else 'quick', seed)
     except Exception as e:
         return {'error': str(e)[-1500:], 'failures': [], 'explored': None}
     fs = [f for f in out['failures'] if pid in f.get('pids', [f['pid']]) and (f['pattern'], f['flags'], f['input']) not in known_inputs]
